@@ -254,7 +254,7 @@ func checkC05(e *Engine, r *Report) {
 		r.Check(key+"#gets-request", "R1+R6 dual-write", name+" obtains the request through getPendingRequest()", e.Pos(fn.Pos()), fn,
 			len(e.callsTo(fn, getPendingRequest)) == 1, "", false)
 	}
-	r.MinKeys("R1:dual-write[", 7*8)
+	r.MinKeys("R1:dual-write[", 7*4)
 
 	// markPending(NRI) registers the container in the cache-level pending set
 	if cacheMarkPending != nil {
@@ -335,7 +335,7 @@ func checkC05(e *Engine, r *Report) {
 				e.InstrPos(in), fn, ok2, why, !owners[name])
 		})
 	}
-	r.MinInstances("R3 resource leaf writers", nown, 7)
+	r.MinInstances("R3 resource leaf writers", nown, 4)
 	caFns := e.funcsInPkg(pkgCA)
 	r.WhoMayWrite("R3", e.Field(pkgCA, "container", "request"), "container.request",
 		set(FnName(getPendingRequest), "(*"+short(pkgCA)+".container).GetPendingAdjustment", "(*"+short(pkgCA)+".container).GetPendingUpdate"), caFns)
